@@ -71,8 +71,29 @@ def clean():
 NUMERIC = {"y", "x", "z", "w", "my col", "kk", "s", "n", "u1", "k"}
 
 
+NULLABLE = {"kk": "Int64", "s": "Int64", "n": "Int64", "x": "Float64", "z": "Float64"}
+
+
 def with_missing(cells, marker="none"):
     df = clean()
+    if marker == "nullable":  # pandas' nullable extension dtypes hold pd.NA
+        for c, dt in NULLABLE.items():
+            df[c] = df[c].astype(dt)
+        for r, c in cells:
+            if c in NULLABLE:
+                df.loc[r, c] = pd.NA
+            elif c in NUMERIC:
+                df[c] = df[c].astype(float)
+                df.loc[r, c] = np.nan
+            else:
+                col = df[c].astype(object)
+                col[r] = None
+                df[c] = col
+        return df
+    if marker == "dupindex":
+        out = with_missing(cells, "none")
+        out.index = [0, 0, 1, 1, 0, 2]  # labels shared between complete and incomplete rows
+        return out
     for r, c in cells:
         if c in NUMERIC:
             df[c] = df[c].astype(float)
@@ -96,7 +117,7 @@ def names_in(text):
 def patterns(used, tier):
     cols = list(used) + UNUSED
     if tier == "single":
-        cols = ["y", "x", "z", "w", "f", "g", "h", "u1", "u2", "k"]
+        cols = list(dict.fromkeys(list(used) + ["y", "x", "z", "w", "f", "g", "h", "u1", "u2", "k"]))
     cells = [(r, c) for r in range(N) for c in cols]
     out = [[cell] for cell in cells]
     if tier == "single":
@@ -119,6 +140,11 @@ def units(tier, seed):
     # the used-variable set of a formula must not depend on the formulas processed before it
     for a in HIST_A:
         u.append([{"kind": "patterns", "i": b, "tier": "single", "marker": "none", "after": a} for b in HIST_B])
+    # frames whose index has duplicated labels, and frames with pandas' nullable dtypes (pd.NA)
+    for i in (0, 2, 10, 13, 15, 18, 19, 24):
+        u.append([{"kind": "patterns", "i": i, "tier": "single", "marker": "dupindex"}])
+    for i in (0, 1, 2, 15, 24, 25):
+        u.append([{"kind": "patterns", "i": i, "tier": "single", "marker": "nullable"}])
     for i in range(len(POOL)):
         u.append([{"kind": "patterns", "i": i, "tier": tier, "marker": m} for m in (["none"] if tier == "quick" else ["none", "nan"])])
     return u
